@@ -3,7 +3,9 @@ CONSTANTS
   V = {"i1", "i2", "j1"}
   M <- M3
   B = {"b1", "b2"}
+  Kinds = {"apply", "stub", "when"}
+  Args = {7, 8}
   MaxOps = 9
-  Ops <- AllOps
+  Ops <- AllHeldOps
 INVARIANT Emit
 CHECK_DEADLOCK FALSE
